@@ -272,7 +272,7 @@ func (P *Program) Explore(fn *ssa.Function, cfg ExploreConfig) *Exploration {
 		cfg.Inline = defaultInline
 	}
 	if cfg.MaxDepth == 0 {
-		cfg.MaxDepth = 4
+		cfg.MaxDepth = 8
 	}
 	if cfg.MaxVisits == 0 {
 		cfg.MaxVisits = 3
@@ -755,7 +755,7 @@ func (x *explorer) eval(st *state, fr *frame, v ssa.Value) *Term {
 		return ret(v.Index, x.rawOf(st, fr, v.Tuple))
 	case *ssa.Field:
 		a := x.termOf(st, fr, v.X)
-		return field(a, fieldName(v.X.Type(), v.Field))
+		return projField(a, fieldName(v.X.Type(), v.Field))
 	case *ssa.FieldAddr:
 		a := x.termOf(st, fr, v.X)
 		return &Term{Op: "addr", Name: fieldName(v.X.Type(), v.Field), Args: []*Term{a}, Type: v.Type(), Embedded: fieldEmbedded(v.X.Type(), v.Field)}
@@ -896,7 +896,7 @@ func (x *explorer) known(st *state, addr *Term) (*Term, bool) {
 			if bv.Op == "const" && strings.HasPrefix(bv.Name, "zero:") {
 				return nil, false
 			}
-			return &Term{Op: "field", Name: addr.Name, Args: []*Term{bv}}, true
+			return projField(bv, addr.Name), true
 		}
 	case "iaddr":
 		if bv, ok := x.known(st, addr.Args[0]); ok {
@@ -925,6 +925,11 @@ func (x *explorer) load(st *state, addr *Term, typ types.Type) *Term {
 				return z
 			}
 		}
+		if r := addrRoot(addr); r.Op == "cell" || r.Op == "make" {
+			if sv := x.structOf(st, addr, typ, 0); sv != nil {
+				return sv
+			}
+		}
 		return &Term{Op: "field", Name: addr.Name, Args: []*Term{base}, Type: typ}
 	case "iaddr":
 		a, i := addr.Args[0], addr.Args[1]
@@ -935,9 +940,57 @@ func (x *explorer) load(st *state, addr *Term, typ types.Type) *Term {
 		}
 		return mk("idx", "", a, i)
 	case "cell":
+		if sv := x.structOf(st, addr, typ, 0); sv != nil {
+			return sv
+		}
 		return mk("unknown", "uninit:"+addr.Name)
 	}
 	return mk("deref", "", addr)
+}
+
+// structOf assembles the value of a struct-typed local cell from the values
+// the path memory holds for its fields (zero for fields never written): a
+// struct built field by field and then returned or passed by value keeps its
+// components.
+func (x *explorer) structOf(st *state, addr *Term, typ types.Type, depth int) *Term {
+	if typ == nil || depth > 3 {
+		return nil
+	}
+	s, ok := typ.Underlying().(*types.Struct)
+	if !ok || s.NumFields() == 0 || s.NumFields() > 24 {
+		return nil
+	}
+	out := &Term{Op: "struct", Name: typeShort(typ), Type: typ}
+	for i := 0; i < s.NumFields(); i++ {
+		f := s.Field(i)
+		fa := &Term{Op: "addr", Name: f.Name(), Args: []*Term{addr}, Type: types.NewPointer(f.Type()), Embedded: f.Embedded()}
+		var v *Term
+		if kv, ok := x.known(st, fa); ok {
+			v = kv
+		} else if _, isStruct := f.Type().Underlying().(*types.Struct); isStruct {
+			v = x.structOf(st, fa, f.Type(), depth+1)
+		} else {
+			v = zeroOf(f.Type())
+		}
+		if v == nil {
+			v = &Term{Op: "field", Name: f.Name(), Args: []*Term{mk("unknown", "uninit:"+addr.Key())}, Type: f.Type()}
+		}
+		out.Args = append(out.Args, mk("fv", f.Name(), v))
+	}
+	return out
+}
+
+// projField selects a field of a value; struct terms assembled by structOf
+// (or stored whole) resolve to the component.
+func projField(base *Term, name string) *Term {
+	if base != nil && base.Op == "struct" {
+		for _, a := range base.Args {
+			if a.Op == "fv" && a.Name == name && len(a.Args) == 1 {
+				return a.Args[0]
+			}
+		}
+	}
+	return field(base, name)
 }
 
 func foldBin(op string, a, b *Term) *Term {
